@@ -50,6 +50,8 @@ class CliWorld:
         self.vendor = v
         feats = ["ordered", "rewrite", "global", "neg", "logic", "tail", "values"] + (["overlap"] if prop == "C01" else [])
         self.allow = set(f for f in feats if ch.draw(4, "feat-" + f) != 0)
+        if prop == "C09" and ch.draw(3, "feat-force-commit") == 0:
+            self.allow.add("force_commit")
         if prop == "C02":
             self.allow.discard("rewrite")
             if ch.draw(3, "feat-twins") != 0:
@@ -95,6 +97,7 @@ class CliWorld:
     def _gen_deploying(self, ch):
         """deploy rulebook over the patching rulebook's rows: sibling rules have disjoint languages (unique heads)"""
         lines = []
+        self.alt_apply = ch.draw(3, "dep-alt-world") == 0
 
         def emit(rules, ind, nested_ok):
             for r in rules:
@@ -110,7 +113,9 @@ class CliWorld:
                         if r.tail:
                             pat += " ~"
                     timeout = ch.pick([None, 45, 90, 200], "dep-timeout")
-                    line = "    " * ind + pat + ("" if timeout is None else " %%timeout=%d" % timeout)
+                    alt = ind == 0 and not r.block and self.alt_apply and ch.draw(3, "dep-alt") == 0
+                    line = "    " * ind + pat + ("" if timeout is None else " %%timeout=%d" % timeout) + \
+                        (" %apply_logic=simlogic.apply_alt" if alt else "")
                     dialogs = []
                     for q in range(ch.draw(3, "dep-ndialog")):
                         qtext = ["Continue? [Y/N]:", "Are you sure?", "/Really (do|undo) it\\?/"][q]
@@ -118,7 +123,8 @@ class CliWorld:
                     lines.append(line)
                     for qtext, ans in dialogs:
                         lines.append("    " * (ind + 1) + "dialog: %s ::: %s" % (qtext, ans))
-                    spec = {"pat": pat, "timeout": timeout if timeout is not None else 30, "dialogs": dialogs, "children": []}
+                    spec = {"pat": pat, "timeout": timeout if timeout is not None else 30, "dialogs": dialogs, "children": [],
+                            "apply": "alt" if alt else "default"}
                     yield form, r, spec
                     if form == "direct" and r.block and not r.rewrite and nested_ok:
                         spec["children"] = list(emit(r.children, ind + 1, True))
@@ -840,23 +846,70 @@ class Engine:
                     continue
                 world.probe("deploy_stream_compared")
                 rows = [(lv, cmd) for (lv, cmd, _t, _q) in got]
-                if rows[:len(before)] != [(0, x) for x in before] or \
-                        rows[len(rows) - len(after):] != [(0, x) for x in after] or len(rows) < len(before) + len(after):
-                    key = "commit-under-dont-commit" if (dont_commit and t["commit"] and (0, t["commit"]) in rows) else "wrapper"
-                    return V("wrapper-mismatch", key, step=step, device=d.hostname, dont_commit=dont_commit,
-                             want_before=before, want_after=after, received=rows)
-                body = rows[len(before):len(rows) - len(after)]
+                # what must have been sent: the body is the patch shown at the confirmation prompt (and, unless a rule
+                # asks for an intermediate commit that dont_commit suppresses, the patch `annet patch` prints); consecutive
+                # commands whose deploy rule selects the same apply logic share one session wrapper
+                has_fc = any(r.logic == "simlogic.dyn_force_commit" for r in rb.all)
+                body_ref = sh if not (dont_commit and has_fc) else None
+                alt_before = ["alt-begin"]
+                alt_after = (["alt-commit"] if not dont_commit else []) + ["alt-end"]
+                # recover the body from the stream: everything that is not a wrapper word at level 0 in wrapper position
+                if body_ref is None:
+                    # derive the body from the prompt lines with the levels of the received stream
+                    body_ref = [(lv, cmd) for (lv, cmd) in rows if not (lv == 0 and cmd in before + after + alt_before + alt_after)]
+                stack, kinds = [], []
+                for lv, cmd in body_ref:
+                    stack = stack[:lv] + [cmd]
+                    spec = self._ref_deploy_rule(world, tuple(stack))
+                    kinds.append(spec.get("apply", "default") if spec else "default")
+                expect = []
+                i = 0
+                while i < len(body_ref):
+                    j = i
+                    while j < len(body_ref) and kinds[j] == kinds[i]:
+                        j += 1
+                    b, a = (before, after) if kinds[i] == "default" else (alt_before, alt_after)
+                    expect.extend([("w", 0, x) for x in b] + [("b",) + tuple(body_ref[k]) for k in range(i, j)] + [("w", 0, x) for x in a])
+                    i = j
+                if len(set(kinds)) > 1:
+                    world.probe("patch_alternates_between_apply_logics")
+                if [(e[1], e[2]) for e in expect] != rows:
+                    want_rows = [(e[1], e[2]) for e in expect]
+                    missing = list(want_rows)
+                    for x in rows:
+                        if x in missing:
+                            missing.remove(x)
+                    if has_fc and missing and len(missing) + len(rows) == len(want_rows) and \
+                            all(x == (0, "commit") for x in missing) and [x for x in want_rows if x != (0, "commit")] == \
+                            [x for x in rows if x != (0, "commit")]:
+                        # several rules asked for an intermediate commit in one patch: the equal 'commit' rows share one path
+                        v = V("stream-differs-from-shown-patch", "force-commit-rows-collapsed", step=step, device=d.hostname,
+                              shown=sh, sent=rows, expected=want_rows)
+                        if not self._known(v):
+                            return v
+                        continue
+                    commit_words = [w for w in (t["commit"], "alt-commit") if w]
+                    if dont_commit and any(lv == 0 and cmd in commit_words for lv, cmd in rows):
+                        return V("wrapper-mismatch", "commit-under-dont-commit", step=step, device=d.hostname, received=rows, expected=want_rows)
+                    if sorted(want_rows) == sorted(rows):
+                        return V("stream-differs-from-shown-patch", "order", step=step, device=d.hostname, shown=sh, sent=rows, expected=want_rows)
+                    wr = [x for x in rows if x[0] == 0 and x[1] in before + after + alt_before + alt_after]
+                    ww = [x for x in want_rows if x[0] == 0 and x[1] in before + after + alt_before + alt_after]
+                    if wr != ww:
+                        return V("wrapper-mismatch", "wrapper", step=step, device=d.hostname, dont_commit=dont_commit,
+                                 want_before=before, want_after=after, received=rows, expected=want_rows)
+                    return V("stream-differs-from-shown-patch", "body", step=step, device=d.hostname, shown=sh, sent=rows, expected=want_rows)
+                body = [(e[1], e[2]) for e in expect if e[0] == "b"]
                 if dont_commit and t["commit"] and any(cmd == t["commit"] and lv == 0 for lv, cmd in body):
                     return V("wrapper-mismatch", "commit-under-dont-commit", step=step, device=d.hostname, received=rows)
-                if body != sh:
-                    return V("stream-differs-from-shown-patch", "body", step=step, device=d.hostname, shown=sh, sent=body)
                 if [cmd for _lv, cmd in body] != prompt.get(d.hostname, []):
                     return V("stream-differs-from-prompt", "cmd-lines", step=step, device=d.hostname,
                              prompt=prompt.get(d.hostname), sent=body)
+                is_wrapper = [e[0] == "w" for e in expect]
                 # timeouts and dialogs per command
                 stack = []
                 for n, (lv, cmd, tmo, qs) in enumerate(got):
-                    if n < len(before) or n >= len(got) - len(after):
+                    if is_wrapper[n]:
                         path = (cmd,)
                     else:
                         stack = stack[:lv] + [cmd]
